@@ -394,6 +394,25 @@ def encoding_history_task(task, ctx: Ctx):
                               f"set_encoding({e1!r}), use, set_encoding({e2!r}) gives {got[k]!r} (observation {k}); a fresh interpreter after set_encoding({e2!r}) alone gives {fresh[k]!r}")
             else:
                 ctx.distinct("nontrivial", ("enc", e1, e2))
+    # names are case-insensitive (locales report them in upper case): the same state whatever the letter case
+    for e2 in e2s:
+        if not e2 or e2 == "no-such-codec":
+            continue
+        uu.set_encoding(e2.lower())
+        base = norm(enc_state())
+        for variant in (e2.upper(), e2.title()):
+            ctx.count("evaluations")
+            uu.set_encoding("ascii")
+            uu.set_encoding(variant)
+            got = norm(enc_state())
+            # (the reported target name may keep the spelling it was given)
+            a, b = list(got), list(base)
+            a[1] = str(a[1]).lower().replace("_", "-")
+            b[1] = str(b[1]).lower().replace("_", "-")
+            if a != b:
+                k = next(i for i, (x, y) in enumerate(zip(a, b)) if x != y)
+                ctx.violation("encoding-history", f"C11/encoding-name-case/{'mode' if k == 0 else 'other'}", {"part": "enc-case", "name": variant},
+                              f"set_encoding({variant!r}) gives {got[k]!r} (observation {k}), set_encoding({e2.lower()!r}) gives {base[k]!r}")
     env.reset("utf-8")
 
 
